@@ -151,6 +151,19 @@ std::string check_getters(const bxdecay0::decay0_generator & g, const Model & m)
   return o.str();
 }
 
+/// everything the public observers tell about the working data (beyond the configuration getters of check_getters)
+std::string working_data(const bxdecay0::decay0_generator & g)
+{
+  std::ostringstream o;
+  o << "toallevents=" << dbits(g.get_to_all_events()) << " ";
+  const bxdecay0::bbpars & bp = g.get_bb_params();
+  bp.dump(o, "");
+  double s1 = 0, s2 = 0; size_t n1 = 0, n2 = 0;
+  for (unsigned i = 0; i < bxdecay0::bbpars::SPSIZE; i++) { s1 += bp.spthe1[i]; s2 += bp.spthe2[i]; if (bp.spthe1[i] != 0) n1++; if (bp.spthe2[i] != 0) n2++; }
+  o << " spthe1:" << n1 << "/" << dbits(s1) << " spthe2:" << n2 << "/" << dbits(s2);
+  return o.str();
+}
+
 std::string state_class(const Model & m, const std::string & last)
 {
   std::string s = m.init ? "I" : "U";
@@ -353,7 +366,18 @@ Outcome run_proto(const Plan & plan, const RunCtx & ctx)
     } else if (op.k == "reset") {
       bool was = m.init;
       try { g.reset(); } catch (std::exception & e) { violation(oi, "reset-threw", e.what()); }
-      if (was) { m = Model(); last[gi] = "reset"; out.ctr["probe_reset_of_initialized"]++; }
+      if (was) {
+        m = Model(); last[gi] = "reset"; out.ctr["probe_reset_of_initialized"]++;
+        // "indistinguishable from a newly constructed one": also for the observers of the working data
+        static const std::string pristine = [] { bxdecay0::decay0_generator fresh; return working_data(fresh); }();
+        std::string now = working_data(g);
+        if (now != pristine) {
+          size_t k = 0; while (k < now.size() && k < pristine.size() && now[k] == pristine[k]) k++;
+          size_t b = now.rfind('\n', k); b = b == std::string::npos ? 0 : b + 1;
+          violation(oi, "not-default-after-reset", "after reset() the working data seen through get_to_all_events()/get_bb_params() differ from a newly constructed generator, first at: '"
+                            + now.substr(b, 80) + "'");
+        }
+      }
       else { out.ctr["diag_reset_on_uninitialised_keeps_config"]++; }
       tr.adds("reset");
     } else {
@@ -399,7 +423,7 @@ Op noise_op(Rng & r, int g)
     if (e < 8) return mk("set_iso", {g}, {GA_NUC[r.below(4)]});
     return mk("set_iso", {g}, {r.pick(bad_iso)});
   }
-  if (d < 34) return mk("set_level", {g, r.chance(0.7) ? r.range(0, 2) : r.range(-1, 17)});
+  if (d < 34) return mk("set_level", {g, r.chance(0.7) ? r.range(0, 2) : (r.chance(0.8) ? r.range(-8, 17) : r.pick(std::vector<i64>{-2147483647 - 1, 2147483647, -2, 100000}))});
   if (d < 46) {
     u64 e = r.below(10);
     if (e < 5) return mk("set_mode", {g, r.pick(std::vector<i64>{1, 2, 3, 7, 9, 11, 12, 17, 18})});
@@ -418,7 +442,7 @@ Op noise_op(Rng & r, int g)
     return mk("set_range", {g, -1, -1});
   }
   if (d < 61) return mk("set_ver", {g}, {r.chance(0.5) ? "1.0.0" : ""});
-  if (d < 65) return mk("add_op", {g, r.chance(0.3) ? 0 : r.range(1, mdl_presets())});
+  if (d < 65) return mk("add_op", {g, r.chance(0.3) ? 0 : r.range(1, mdl_single_presets())});
   if (d < 67) return mk("dump", {g});
   if (d < 78) return mk("init", {g, (i64)r.below(1000), -1, -1, -1});
   if (d < 90) return mk("shoot", {g, (i64)r.below(8), (i64)r.below(NS), -1});
@@ -464,7 +488,7 @@ void emit_config(Rng & r, Plan & p, int g, const Target & t)
     } else v.push_back(mk("set_mode", {g, t.mode}));
     if (t.lo >= 0) v.push_back(mk("set_range", {g, t.lo, t.hi}));
   }
-  if (r.chance(0.25)) v.push_back(mk("add_op", {g, r.range(1, mdl_presets())}));
+  if (r.chance(0.25)) v.push_back(mk("add_op", {g, r.range(1, mdl_single_presets())}));
   // random order: the protocol does not care
   for (size_t i = v.size(); i > 1; i--) std::swap(v[i - 1], v[r.below(i)]);
   for (auto & o : v) p.ops.push_back(o);
@@ -514,7 +538,7 @@ Plan gen_proto(u64 seed, u64 idx, const RunCtx & ctx)
       u64 b = r.below(5);
       if (b == 0) p.ops.push_back(mk("set_iso", {g}, {"Xx999"}));
       else if (b == 1) p.ops.push_back(mk("set_cat", {g, 0}));
-      else if (b == 2) p.ops.push_back(mk("set_level", {g, t.cat == 1 ? 16 : -1}));
+      else if (b == 2) p.ops.push_back(mk("set_level", {g, t.cat == 1 ? r.pick(std::vector<i64>{16, -2, -7, 99}) : -1}));
       else if (b == 3) p.ops.push_back(mk("set_mode", {g, t.cat == 1 ? 0 : 4}));
       else if (r.chance(0.5)) p.ops.push_back(mk("set_range", {g, 2000, 1000}));
       else p.ops.push_back(mk("set_range", {g, r.pick(std::vector<i64>{4300, 4500, 5000, 100000}), -1}));
